@@ -333,7 +333,28 @@ func runPush(t *testing.T, tape *Tape, w *World, variant string, steps int, out 
 		r.Stats["push_stalled_server_runs"]++
 	}
 	ps := &pushSim{r: r, sub: sub, fail: fail, pending: &pending, seen: map[string]int{}, stalled: stalled, nackRace: map[string]bool{}}
+	// swarm mode "burst": after a warm-up of fast successes (window grows) every request
+	// takes the same 1.2 s and succeeds or fails by coin flip, so slow successes and failures
+	// of several in-flight pushes complete together and meet in the reader's queues
+	burstAfter := -1
+	if tape.Bool(30) {
+		burstAfter = 4 + tape.Intn(12)
+		r.Stats["push_burst_runs"]++
+	}
 	ps.script = func(p *pushReq) {
+		if burstAfter >= 0 {
+			if p.id < burstAfter {
+				p.status = []int{200, 201, 202, 204}[tape.Intn(4)]
+				return
+			}
+			p.delay = 1200 * time.Millisecond
+			if tape.Bool(60) {
+				p.status = []int{200, 201, 202, 204, 102}[tape.Intn(5)]
+			} else {
+				p.status = []int{500, 404, 0, 299}[tape.Intn(4)]
+			}
+			return
+		}
 		if tape.Bool(okBias) {
 			p.status = []int{200, 201, 202, 204, 102}[tape.Intn(5)]
 		} else {
